@@ -282,6 +282,9 @@ pub enum LargeCase {
     LongName { what: String, n: usize },
     /// a Tags value of n tags / an Attributes value of n entries
     ManyEntries { what: String, n: usize },
+    /// n instances of one class that all carry the smallest value of a variable-size type (empty
+    /// text, empty table, absent option); with `one_big` the last one carries an ordinary value
+    MinimalColumn { kind: String, n: usize, one_big: bool },
 }
 
 pub fn large_forest(c: &LargeCase) -> GForest {
@@ -371,6 +374,36 @@ pub fn large_forest(c: &LargeCase) -> GForest {
                 node(None, "Folder", name, vec![]),
             ]
         }
+        LargeCase::MinimalColumn { kind, n, one_big } => {
+            let (class, prop, small, big): (&str, &str, GVal, GVal) = match kind.as_str() {
+                "String" => ("ZzMin", "Text", GVal::String(String::new()), GVal::String("text".into())),
+                "BinaryString" => ("ZzMin", "Blob", GVal::BinaryString(vec![]), GVal::BinaryString(vec![0, 255])),
+                "SharedString" => ("ZzMin", "Shared", GVal::SharedString(vec![]), GVal::SharedString(vec![1, 2, 3])),
+                "ContentId" => ("ZzMin", "Link", GVal::ContentId(String::new()), GVal::ContentId("rbxassetid://1".into())),
+                "ContentUri" => ("ZzMin", "Pic", GVal::Content(vals::GContent::Uri(String::new())), GVal::Content(vals::GContent::Uri("rbxassetid://2".into()))),
+                "ContentNone" => ("ZzMin", "Pic", GVal::Content(vals::GContent::None), GVal::Content(vals::GContent::Uri("x".into()))),
+                "Tags" => ("Folder", "Tags", GVal::Tags(vec![]), GVal::Tags(vec!["t".into()])),
+                "Attributes" => ("Folder", "Attributes", GVal::Attributes(vec![]), GVal::Attributes(vec![("a".into(), GVal::Bool(true))])),
+                "NumberSequence" => ("ZzMin", "Seq", GVal::NumberSequence(vec![]), GVal::NumberSequence(vec![[0, 0, 0], [1f32.to_bits(), 0, 0]])),
+                "ColorSequence" => ("ZzMin", "Colors", GVal::ColorSequence(vec![]), GVal::ColorSequence(vec![(0, [0, 0, 0]), (1f32.to_bits(), [0, 0, 0])])),
+                "Font" => (
+                    "ZzMin",
+                    "Face",
+                    GVal::Font { family: String::new(), weight: 400, style: 0, cached: None },
+                    GVal::Font { family: "rbxasset://fonts/families/Arial.json".into(), weight: 700, style: 1, cached: Some("rbxasset://fonts/arialbd.ttf".into()) },
+                ),
+                "MaterialColors" => ("ZzMin", "Mat", GVal::MaterialColors(vec![]), GVal::MaterialColors(vec![(0, [1, 2, 3])])),
+                "OptionalCFrame" => ("ZzMin", "Pivot", GVal::OptionalCFrame(None), GVal::OptionalCFrame(Some(vals::GCf::identity_at([1f32.to_bits(), 0, 0])))),
+                _ => ("ZzMin", "Phys", GVal::PhysicalProperties(None), GVal::PhysicalProperties(Some([1f32.to_bits(); 5]))),
+            };
+            (0..*n)
+                .map(|i| {
+                    let v = if *one_big && i + 1 == *n { big.clone() } else { small.clone() };
+                    // empty names too: the Name column is a string column like any other
+                    node(if i % 4 == 3 { Some(i - 1) } else { None }, class, if i % 2 == 0 { String::new() } else { format!("m{i}") }, vec![(prop.to_string(), v)])
+                })
+                .collect()
+        }
         LargeCase::ManyEntries { what, n } => {
             let v = if what == "Tags" {
                 ("Tags", GVal::Tags((0..*n).map(|i| format!("t{i}")).collect()))
@@ -401,6 +434,15 @@ pub fn more_large_cases(full: bool) -> Vec<LargeCase> {
             cases.push(LargeCase::LongName { what: what.to_string(), n });
         }
     }
+    for kind in [
+        "String", "BinaryString", "SharedString", "ContentId", "ContentUri", "ContentNone", "Tags", "Attributes", "NumberSequence", "ColorSequence", "Font", "MaterialColors", "OptionalCFrame", "PhysicalProperties",
+    ] {
+        for n in if full { vec![1usize, 2, 3, 7, 8, 9, 10, 16, 17, 31, 33, 64, 100, 255, 256, 257, 1_000, 4_097] } else { vec![1usize, 9, 33, 257, 4_097] } {
+            for one_big in [false, true] {
+                cases.push(LargeCase::MinimalColumn { kind: kind.to_string(), n, one_big });
+            }
+        }
+    }
     for what in ["Tags", "Attributes"] {
         for n in if full { vec![255usize, 256, 257, 65_536, 65_537] } else { vec![257usize, 65_537] } {
             cases.push(LargeCase::ManyEntries { what: what.to_string(), n });
@@ -418,6 +460,7 @@ fn large_body(c: &LargeCase, ctx: &mut CaseCtx) -> PropResult {
         LargeCase::ManyProps { .. } => "many_properties_on_one_class",
         LargeCase::LongName { .. } => "long_name",
         LargeCase::ManyEntries { .. } => "many_entries_in_one_value",
+        LargeCase::MinimalColumn { .. } => "column_of_smallest_values",
     });
     let f = large_forest(c);
     roundtrip_body(&f, ctx)?;
